@@ -29,7 +29,7 @@ from dsim.trace import EventLog, digest_int
 PROP = "C07"
 # Rotations below ~1.5e-8 rad are invisible to Modern Robotics' MatrixLog3 (acos of (trace-1)/2 rounds to 0 when
 # angle^2/2 < 2^-53).  Violations inside this zone are one known finding, matched by this bound (known_findings.json).
-ANG_BLIND = 1e-7
+ANG_BLIND = 3e-7
 URDFS = ["irb_2400", "ur5", "puma_560", "ur_description/ur10", "ur_description/ur5"]
 
 _m = {}
